@@ -306,7 +306,12 @@ type connCase struct {
 }
 
 func (g *Rng) connCase(idx int) connCase {
-	c := connCase{reg: g.registry(), id: fmt.Sprintf("c%d", idx)}
+	return g.connCaseReg(g.registry(), fmt.Sprintf("c%d", idx))
+}
+
+// connCaseReg: a request stream against a given registry (several connections of one service).
+func (g *Rng) connCaseReg(reg registrySpec, id string) connCase {
+	c := connCase{reg: reg, id: id}
 	n := g.Intn(6)
 	if g.Chance(1, 10) {
 		n = 6 + g.Intn(20)
@@ -324,8 +329,17 @@ func (g *Rng) connCase(idx int) connCase {
 		f := g.requestFrame(c.reg, c.id)
 		sb = append(sb, f[:g.Intn(len(f)+1)]...)
 	}
-	if g.Chance(1, 40) { // one frame larger than any internal buffer
-		sb = append([]byte(`{"method":"org.varlink.service.GetInfo","parameters":{"pad":`+g.bigString(5000+g.Intn(100000))+`}}`+"\x00"), sb...)
+	if g.Chance(1, 25) { // one frame larger than any internal buffer
+		big := `{"method":"org.varlink.service.GetInfo","parameters":{"pad":` + g.bigString(5000+g.Intn(100000)) + `}}`
+		if g.Bool() {
+			// wire length (with the NUL) at or next to a multiple of the reader's buffer size
+			want := g.Pick3(4096, 8192, 16384) + g.Pick3(-1, 0, 1)
+			head, tail := `{"method":"org.varlink.service.GetInfo","parameters":{"pad":"`, `"}}`
+			if fill := want - 1 - len(head) - len(tail); fill > 0 {
+				big = head + strings.Repeat("x", fill) + tail
+			}
+		}
+		sb = append([]byte(big+"\x00"), sb...)
 	}
 	c.stream = sb
 	c.segs = g.cut(sb)
